@@ -54,7 +54,7 @@ class VQueue:
 
     # --- consumer side (parent)
     def get(self, block=True, timeout=None):
-        return self.rig.route_get(self, blocking=True)
+        return self.rig.route_get(self, blocking=True, waits=bool(block) and (timeout is None or timeout > 0))
 
     def get_nowait(self):
         return self.rig.route_get(self, blocking=False)
@@ -335,7 +335,7 @@ class VirtRig:
 
     # ------------------------------------------------------------------ interrupts
     INT_AT = {'loop': 'ready', 'submit': 'submit', 'wait_sample': 'logs', 'wait_consume': 'sample',
-              'wait_dead': 'yield', 'iter': 'yield', 'body': 'complete', 'remove': 'removed',
+              'wait_dead': 'yield', 'wait_drain2': 'yield', 'iter': 'yield', 'body': 'complete', 'remove': 'removed',
               'ser_run': 'sample', 'int1_cancel': 'int1', 'drain_check': 'cancelled', 'int2_stop': 'int2',
               'plan': 'plan'}
 
@@ -430,9 +430,12 @@ class VirtRig:
         else:
             self.monq.append(item)
 
-    def route_get(self, q, blocking):
+    def route_get(self, q, blocking, waits=False):
         if blocking:
             # ProcessExecutor's consumer thread draining the result queue
+            if waits and not self.resq:
+                # the coordinator really blocks here, waiting for completions: a resting point by definition
+                self.trace.append({'e': 'rest'})
             if self.phase in ('sampled', 'pre', 'idle'):
                 if self.phase == 'idle':
                     self.apply_block('S')
@@ -555,7 +558,7 @@ class VirtRig:
         cached, vals = ([], [])
         if cfg['storage']:
             cached, vals = D.observe_cache(lab, built, cfg['n'])
-        insts = [[o.tid, int(getattr(o, 'result_meta', None) is not None), anc]
+        insts = [[o.tid, int(getattr(o, 'result_meta', None) is not None), anc, D.meta_token(o)]
                  for o, anc in D.walk_instances(req)]
         self.muted = False
         self.trace.append({'e': 'obs_cache', 'cached': cached, 'vals': vals})
